@@ -96,6 +96,20 @@ impl Scenario for BusCrash {
                 }
             }
         }
+        // interrupt dispatches whose pushes land on IE / IF / ROM registers / the 16-bit wrap (and may cancel the dispatch), and
+        // code that stops short of an instruction cut off by the end of its region (the block ends in front of it; an interrupt
+        // is taken there, so execution never arrives at it)
+        for _ in 0..rng.below(3) {
+            if rng.chance(1, 2) {
+                let sp = rng.pick(&[0x0000u16, 0x0001, 0x0002, 0xff10, 0xff11, 0xffff, 0x2001, 0x4001, 0xa001, 0xfea1]);
+                let pc = rng.pick(&[0x0150u16, 0x0000, 0x1f00, 0x00ff, 0xe0e0, 0xffff, 0x0a0a]);
+                case.push("irq", &[sp as i64, rng.pick(&[0x01i64, 0x04, 0x1f, 0x10, 0x0a]), rng.pick(&[0x01i64, 0x04, 0x1f, 0x10, 0x0a]), pc as i64, rng.below(3) as i64]);
+            } else {
+                case.push("edge", &[rng.below(4) as i64, rng.below(3) as i64]);
+            }
+        }
+        // bank 0 ends with NOP; NOP; LD BC,d16 whose second operand byte would lie in the switchable bank
+        case.blobs.insert(patch_key(0x3ffc), vec![0x00, 0x00, 0x01, 0x12]);
         // program for "blk" (SP and HL come from the registers): PUSH BC; POP DE; LD (0xFFFF),SP; LD (0x7FFF),SP; LD (0xBFFF),SP;
         // LD A,(HL); LD (HL),A; INC (HL); BIT 0,(HL); LD A,(HL+); LD A,(HL-); PUSH AF; POP AF; HALT
         case.blobs.insert(patch_key(0x0150), vec![0xc5, 0xd1, 0x08, 0xff, 0xff, 0x08, 0xff, 0x7f, 0x08, 0xff, 0xbf, 0x7e, 0x77, 0x34, 0xcb, 0x46, 0x2a, 0x3a, 0xf5, 0xf1, 0x76]);
@@ -121,6 +135,8 @@ impl Scenario for BusCrash {
                 "fv" => 5,
                 "blk" => 6,
                 "sweep" => 7,
+                "irq" => 6,
+                "edge" => 6,
                 _ => continue,
             };
             let r = std::panic::catch_unwind(std::panic::AssertUnwindSafe(|| match op.k {
@@ -156,6 +172,53 @@ impl Scenario for BusCrash {
                         }
                     }
                 }
+                "irq" => {
+                    m.set_ie(op.arg(1) as u8);
+                    m.set_iflag(op.arg(2) as u8);
+                    m.set_ime(crate::machine::IME_ON);
+                    m.set_regs(Regs { af: 0, bc: 0, de: 0, hl: 0, sp: addr as u32, ip: (op.arg(3) & 0xffff) as u32, cycles: 0 });
+                    match op.arg(4) {
+                        0 => m.handle_interrupt(),
+                        1 => {
+                            // a halted CPU woken by the request
+                            m.set_run_state(crate::machine::HALT);
+                            m.update();
+                        }
+                        _ => {
+                            m.set_run_state(crate::machine::STOP);
+                            m.update();
+                        }
+                    }
+                    m.set_run_state(crate::machine::RUN);
+                }
+                "edge" => {
+                    // NOP; NOP; first two bytes of a three-byte instruction at the very end of a region
+                    let start: u16 = [0x3ffcu16, 0xcffc, 0xdffc, 0xfffb][(op.arg(0) & 3) as usize];
+                    if start >= 0x8000 {
+                        for (k, b) in [0x00u8, 0x00, 0x01, 0x12].iter().enumerate() {
+                            m.write(start + k as u16, *b);
+                        }
+                    }
+                    m.set_ie(0x01);
+                    m.set_iflag(0x01);
+                    m.set_ime(crate::machine::IME_ON);
+                    m.set_run_state(crate::machine::RUN);
+                    m.set_regs(Regs { af: 0, bc: 0, de: 0, hl: 0, sp: 0xdfe0, ip: start as u32, cycles: 0 });
+                    match op.arg(1) {
+                        0 => m.run_code_block(),
+                        1 => {
+                            // translator / interpreter alone: the block must end in front of the cut-off instruction
+                            if start < 0x8000 {
+                                m.engine_jit_block();
+                            } else {
+                                m.engine_interp_block();
+                            }
+                        }
+                        _ => {
+                            m.engine_interp_block();
+                        }
+                    }
+                }
                 "blk" => {
                     let a16 = op.arg(1) as u16;
                     for jit in [op.arg(2) != 0, op.arg(2) == 0] {
@@ -180,6 +243,8 @@ impl Scenario for BusCrash {
             ctx.cov.hit(match op.k {
                 "rw" | "ww" if addr == 0xffff => "probe.word_access_at_ffff",
                 "blk" => "probe.stack_programs",
+                "irq" => "probe.dispatches_with_the_stack_on_registers",
+                "edge" => "probe.blocks_ending_in_front_of_a_cut_off_instruction",
                 "sweep" => "probe.full_address_space_sweeps",
                 _ => "accesses",
             });
